@@ -12,9 +12,15 @@ CHILD2 = scen.wf("child", [scen.step("cs1", [{"id": "call2", "uses": "acts.core.
 GRAND = scen.wf("grand", [scen.step("gs1", [scen.irq("g1")])])
 
 
-def parent(to="child"):
-    return scen.wf("parent", [scen.step("s1", [{"id": "call", "uses": "acts.core.subflow", "params": {"to": to, "options": {"a": "$a", "b": "$a"}}}, scen.irq("p0")]),
-                              scen.step("s2", [scen.irq("p1")])])
+def parent(to="child", call_outputs=None):
+    call = {"id": "call", "uses": "acts.core.subflow", "params": {"to": to, "options": {"a": "$a", "b": "$a"}}}
+    if call_outputs:
+        call["outputs"] = call_outputs
+    return scen.wf("parent", [scen.step("s1", [call, scen.irq("p0")]), scen.step("s2", [scen.irq("p1")])])
+
+
+# a child that declares an output nobody ever sets (it stays null) and a caller that declares that key as an output of the calling act
+CHILD_U = scen.wf("child", [scen.step("cs1", [scen.irq("c1")])], inputs={"r": 0, "a": 7}, outputs={"r": None, "u": None})
 
 
 def deploy(d, W, model):
@@ -54,6 +60,28 @@ def call_path(I, res, prop, shape, policy):
     d.sym["r"] = rv
     I.assume(z3.And(rv >= 0, rv <= 100))
     W = d.world(policy=policy)
+    if shape == "unset-output":
+        deploy(d, W, CHILD_U)
+        deploy(d, W, subst(parent(call_outputs={"u": None}), {"a": a}))
+        r = start_by_mid(d, W, "parent", {})
+        if r.d != 0:
+            raise Unsupported("parent did not start")
+        W.drain()
+        res.witnesses += 1
+        P = Proc(W, find_proc(W, "parent")[0], parent(call_outputs={"u": None}), "P")
+        C = Proc(W, find_proc(W, "child")[0], CHILD_U, "C")
+        c1 = [t for t in C.tasks() if t["kind"] == "Act" and t["state"] == "Interrupt"][0]
+        W.action(C.pid, c1["tid"], "Next", {"r": rv})
+        W.drain()
+        P.live()
+        call = [t for t in P.tasks() if t["nid"] == "call"][0]
+        if not C.done():
+            d.viol("child-not-finished:Next", "the child did not deliver a terminal event")
+        elif call["state"] != "Completed":
+            d.viol("call-state:%s/Completed:unset-output" % call["state"], "the child completed (its declared output u was never set and is null) but the calling act, which declares u as an output, is %s" % call["state"])
+        elif "u" not in (call["data"] or {}):
+            d.viol("call-outputs:unset-output-missing", "the calling act did not receive the key u (null) it declares as output")
+        return
     if shape != "missing":
         deploy(d, W, CHILD if shape not in ("nested", "nested-missing") else CHILD2)
     if shape == "nested":
